@@ -29,6 +29,9 @@ open Atomman Atomman.C09 Atomman.Gen
     tableok                    → 0/1
     nunits / uname i           → count / cp,cp,…          names of the generated unit table
     halfnames                  → cp,… cp,… …              names outside the table (half-integral dimension)
+    rparse lvl W tree…         → string | parse | evalAst  the MODEL's `render W lvl tree` (W: `-` or cp,cp,… blanks),
+                                                          its `parse` and the tree's `evalAst` under the state scalings
+                                                          (tree in prefix form: N cp,… | L cp,… | M a b | D a b | P a b)
 -/
 
 namespace C09Drv
@@ -49,6 +52,25 @@ def choice? : List String → Option Choice
     | some l, some m, some t, some e, some q => some ⟨l, m, t, e, q⟩
     | _, _, _, _, _ => none
   | _ => none
+
+/-- prefix-form expression tree: `(tree, remaining tokens)`; fuel = number of tokens. -/
+def tree? : Nat → List String → Option (Expr × List String)
+  | 0, _ => none
+  | f + 1, toks =>
+    match toks with
+    | "N" :: n :: rest => ((n.splitOn ",").mapM String.toNat?).map fun l => (.name (l.map Char.ofNat), rest)
+    | "L" :: n :: rest => ((n.splitOn ",").mapM String.toNat?).map fun l => (.num (l.map Char.ofNat), rest)
+    | op :: rest =>
+      if op = "M" ∨ op = "D" ∨ op = "P" then
+        match tree? f rest with
+        | some (a, r1) =>
+          match tree? f r1 with
+          | some (b, r2) =>
+            some ((if op = "M" then Expr.mul a b else if op = "D" then Expr.div a b else Expr.pow a b), r2)
+          | none => none
+        | none => none
+      else none
+    | [] => none
 
 def rAlg : Alg Rat := numAlg ratToInt?
 
@@ -162,6 +184,12 @@ def step (sc : Scales Rat) (toks : List String) : Scales Rat × String :=
       | some e => (sc, showName e.name)
       | none => (sc, err "value")
     | none => (sc, err "format")
+  | "rparse" :: lvl :: w :: rest =>
+    match lvl.toNat?, optName? w, tree? (rest.length + 1) rest with
+    | some lvl, some w, some (e, []) =>
+      let str := render (w.getD []) lvl e
+      (sc, showName str ++ " | " ++ showO (parse rAlg env str) ++ " | " ++ showO (evalAst rAlg env e))
+    | _, _, _ => (sc, err "format")
   | ["halfnames"] => (sc, " ".intercalate (halfIntegralNames.map showName))
   | _ => (sc, err "op")
 
